@@ -6,6 +6,7 @@ package mnode
 
 import (
 	"context"
+	"encoding/json"
 	"fmt"
 	"strconv"
 	"strings"
@@ -50,6 +51,21 @@ func ToVal(s *schema.Node, v string) (val.Value, error) {
 		return val.UInt64(n), err
 	case "binary":
 		return val.Binary([]byte(v)), nil
+	case "anydata":
+		if strings.HasPrefix(v, "@sel:") {
+			if AnySelection == nil {
+				return nil, fmt.Errorf("harness: no AnySelection hook")
+			}
+			x, err := AnySelection(v)
+			return val.Any{Thing: x}, err
+		}
+		var x interface{}
+		dec := json.NewDecoder(strings.NewReader(v))
+		dec.UseNumber()
+		if err := dec.Decode(&x); err != nil {
+			return nil, fmt.Errorf("harness: anydata value %q: %v", v, err)
+		}
+		return val.Any{Thing: x}, nil
 	case "empty":
 		return val.NotEmpty, nil
 	case "identityref":
@@ -85,6 +101,10 @@ func ToVal(s *schema.Node, v string) (val.Value, error) {
 	}
 	return nil, fmt.Errorf("unsupported model type %s", s.Type)
 }
+
+// AnySelection builds the thing an "@sel:…" anydata value stands for (a
+// node.Selection by value); set by the check that uses it.
+var AnySelection func(spec string) (interface{}, error)
 
 func ToValList(s *schema.Node, vs []string) (val.Value, error) {
 	switch s.Type {
